@@ -23,3 +23,18 @@ type Pair[K, V] = tuple[K, V]
 type Name = str
 
 label = f"{Box(1).meth(2)!r:>{4}} {'nested' f"{1 + 1}"}"
+
+# PEP 709 inlined comprehensions: the loop variable of a comprehension at module or class level that a lambda captures is a
+# hidden local that is also a cell (localsplus kind LOCAL|CELL|HIDDEN); an uncaptured one is LOCAL|HIDDEN
+NAMES = ("a", "b")
+callbacks = [lambda: name for name in NAMES]
+plain = [n2.upper() for n2 in NAMES]
+
+
+class Holder:
+    getters = [lambda self: key for key in NAMES]
+    upper = {k2: k2.upper() for k2 in NAMES}
+
+
+def in_function(seq):
+    return [lambda: item for item in seq], [i2 for i2 in seq]
